@@ -427,8 +427,9 @@ CLAUSE_TEXT = {
                 "the file written from the shorts x asr 16 (G.711: sign and magnitude, magnitude / 2^16), although the codec stores no more than 16 bits",
     "W-widen": "\"integer-to-integer moves keep the most significant bits (widening zero-pads …)\": the file written from the shorts s differs from the "
                "file written from the ints s << 16",
-    "W-float": "\"with normalisation on … writes of x in [-1,1) store the nearest integer to x*(2^(w-1)-1)\": the file written from floats / doubles differs "
-               "from the file written from the ints Sf.CrossType.floatTwin (the rounded product of the codec's own factor, in the top bits)",
+    "W-float": "\"with normalisation on … writes of x in [-1,1) store the nearest integer to x*(2^(w-1)-1) … with normalisation off integers pass through "
+               "unscaled\": the file written from floats / doubles differs from the file written from the ints Sf.CrossType.floatTwin (the rounded product "
+               "of the codec's own factor — 1 resp. 2^woff with normalisation off — in the top bits)",
     "R-short-int": "\"Reading the same stored sample through different API types gives results that agree\": short read != int read asr 16",
     "R-float": "\"float/double reads of w-bit integer data return value/2^(w-1)\" / \"with normalisation off integers pass through unscaled\": the float read "
                "is not the int read / 2^31 (norm off: / 2^noff) rounded once",
